@@ -324,6 +324,9 @@ def run(chk, replay):
                 "class, generated/derived source); trivial = a single colander(all, finest)")
     chk.assumptions = ["user recipe new1 = 2*field1 + field2 (bit-exact numpy evaluation)"]
     nlev = 2
+    if replay and replay["scenario"].get("recipe_history"):
+        from checks import c11
+        return c11.recipe_histories(chk, only=replay["scenario"]["recipe_history"])
     if replay:
         s = replay["scenario"]
         v = run_history(chk, s["sc"], s["cfgseed"], nlev)
@@ -366,3 +369,7 @@ def run(chk, replay):
     from harness import optrace
     optrace.phase(chk, ["strain", "combine", "cook", "read", "iter"], "pipelines on large inputs", 80, 800,
                   assets=["example_plt_3d", "plt1_Y", "plt2_F"], nops=6)
+    # pipelines whose chef steps use DIFFERENT recipe files in one process, serial and parallel, with chef's genuine cached pool
+    # (RecipeCache.tla): every step evaluates the file it was given
+    from checks import c11
+    c11.recipe_histories(chk)
